@@ -93,6 +93,15 @@ def gen_maps_case(rng, tier, big=False):
             if not bit and run is not None:
                 edges.update([p, p - 1, p + 1])
                 run = None
+    # empty windows [n, n): they share end_pfn with the window that ends at n (or sit in a gap);
+    # sort_pfn_file_maps must put them after that neighbour (fix 40)
+    if not big and nm < 4 and rng.random() < 0.35:
+        for _ in range(rng.randint(1, 4 - nm)):
+            n = rng.choice([m[1] for m in maps] + [m[0] for m in maps] + [rng.randint(0, top)])
+            if any(m[0] < n < m[1] for m in maps):
+                continue                     # strictly inside a member's window: not a split set
+            maps.append((n, n, rng.random() < 0.4, gen_bitmap(rng, (n + 7) >> 3)))
+        nm = len(maps)
     order = list(range(nm))
     rng.shuffle(order)
     failcall = 0 if rng.random() < 0.9 else rng.randint(1, 3)
